@@ -1,5 +1,6 @@
 import ChythonModel.Py.Wire
 import ChythonModel.Model.Standardize
+import ChythonModel.Model.C14Charges
 /-!
 Line-protocol driver for C14. One request per line, all arguments are ints.
 
@@ -15,6 +16,10 @@ Line-protocol driver for C14. One request per line, all arguments are ints.
   EXPL mol                                 → `ok n | mol` / `err ValenceError`
   IMPL mol                                 → `ok n | fixed.. | mol` / `err ValenceError|crash`
   NEUT lmol nchanged changed.. hasOut [mol] → `ok check | donors.. | acceptors..`
+  NEUTX keepCharge lmol                    → `_neutralize(keep_charge)`, first result, exact where the code is deterministic:
+                                             `nothing|exact|choice | donors.. | acceptors.. | changed.. | mol` / `crash`
+  CHG lmol norders (k (id rank)^k)^norders → `standardize_charges(prepare_molecule=False)`; the `atoms_order` dicts the real call
+                                             computed are inputs: `ok | changed.. | mol` / `need-order` / `crash`
   log    := entries `r kind k id^k` separated by `;`  (kind 0 = applied, 1 = bad charge)
 -/
 open ChythonModel.Py ChythonModel.Model ChythonModel.Model.Std ChythonModel.Gen.Rules
@@ -121,6 +126,24 @@ def handleNeut : P String := do
     return s!"ok {b01 (neutralizeCheck lm.mol ds as changed out)} | {showNats ds} | {showNats as}"
   | _, _ => return "crash"
 
+def handleNeutX : P String := do
+  let kc ← pNat
+  let lm ← pLMol
+  match neutralizeModel (kc != 0) lm.mol lm.labels lm.comps with
+  | none => return "crash"
+  | some (ds, as, .nothing) => return s!"nothing | {showNats ds} | {showNats as} | | "
+  | some (ds, as, .choice) => return s!"choice | {showNats ds} | {showNats as} | | "
+  | some (ds, as, .exact o ch) => return s!"exact | {showNats ds} | {showNats as} | {showNats ch} | {o.render}"
+
+def handleChg : P String := do
+  let lm ← pLMol
+  let k ← pNat
+  let orders ← pMany k (do let n ← pNat; pMany n (do let a ← pNat; let r ← pNat; pure (a, r)))
+  match standardizeCharges lm.mol lm.labels lm.comps lm.sssr orders with
+  | none => return "crash"
+  | some .needOrder => return "need-order"
+  | some (.done m ch) => return s!"ok | {showNats ch} | {m.render}"
+
 def handle (line : String) : String :=
   match words line with
   | op :: ws =>
@@ -133,6 +156,8 @@ def handle (line : String) : String :=
       | "EXPL" => run handleExpl xs
       | "IMPL" => run handleImpl xs
       | "NEUT" => run handleNeut xs
+      | "NEUTX" => run handleNeutX xs
+      | "CHG" => run handleChg xs
       | _ => "malformed op"
   | [] => "malformed empty"
 
